@@ -1562,4 +1562,541 @@ theorem caseToks_rel (m : CaseMode) (toks : List Tok) : ∀ st,
     cases l with
     | zero => exact List.Forall₂.cons (caseTokRel_caseTok m st t 0) (ih _)
     | succ l => exact List.Forall₂.cons (caseTokRel_caseTok m st t (l + 1)) (ih _)
+
+/-! ### `re.split` on the separators -/
+
+/-- the separator predicate of the specification for each separator of the package -/
+def sepPred : Sep → Str → Bool
+  | .space => isSpaceSep
+  | .comma => fun m => m == [',']
+  | .hyphen => fun m => m == ['-']
+  | .and => isAndSep
+
+theorem spaceRun_le (prev : Option Char) (s : Str) : spaceRun prev s ≤ s.length := by
+  fun_induction spaceRun prev s <;> simp only [List.length_cons, List.length_nil] <;> omega
+
+theorem spaceUnits_cons_of_ne {c : Char} {r : Str} (hc : ¬ c = '\\') :
+    spaceUnits (c :: r) = ((isWs c || decide (c = '~')) && spaceUnits r) := by
+  conv => lhs; unfold spaceUnits
+  simp [hc]
+
+theorem spaceRun_units (prev : Option Char) (s : Str) : spaceUnits (s.take (spaceRun prev s)) = true := by
+  fun_induction spaceRun prev s with
+  | case1 => simp [spaceUnits]
+  | case2 prev r' ih =>
+    have : 2 + spaceRun (some ' ') r' = (spaceRun (some ' ') r' + 1) + 1 := by omega
+    rw [this, List.take_succ_cons, List.take_succ_cons]
+    simp [spaceUnits, ih]
+  | case3 => simp [spaceUnits]
+  | case4 prev c r hc hw ih =>
+    have : 1 + spaceRun (some c) r = spaceRun (some c) r + 1 := by omega
+    rw [this, List.take_succ_cons, spaceUnits_cons_of_ne hc]
+    simp [hw, ih]
+  | case5 prev c r hc hw ht ih =>
+    have : 1 + spaceRun (some c) r = spaceRun (some c) r + 1 := by omega
+    rw [this, List.take_succ_cons]
+    rw [spaceUnits_cons_of_ne hc, ih]
+    simp [ht.1]
+  | case6 => simp [spaceUnits]
+
+theorem sepMatch_le (sep : Sep) (prev : Option Char) (s : Str) : sepMatch sep prev s ≤ s.length := by
+  cases sep with
+  | space => exact spaceRun_le prev s
+  | comma =>
+    simp only [sepMatch]; split
+    · cases s with
+      | nil => simp at *
+      | cons => simp
+    · omega
+  | hyphen =>
+    simp only [sepMatch]; split
+    · cases s with
+      | nil => simp at *
+      | cons => simp
+    · omega
+  | and =>
+    simp only [sepMatch]; split
+    · rename_i h
+      unfold isAndAt at h
+      split at h
+      · simp
+      · cases h
+    · omega
+
+theorem sepMatch_valid (sep : Sep) (prev : Option Char) (s : Str) (h : sepMatch sep prev s ≠ 0) :
+    sepPred sep (s.take (sepMatch sep prev s)) = true := by
+  cases sep with
+  | space =>
+    simp only [sepMatch] at h ⊢
+    simp only [sepPred, isSpaceSep, spaceRun_units, Bool.and_true, decide_eq_true_eq]
+    intro h0
+    have := congrArg List.length h0
+    have hle := spaceRun_le prev s
+    simp only [List.length_take, List.length_nil] at this
+    omega
+  | comma =>
+    simp only [sepMatch] at h ⊢
+    split at h
+    · rename_i hh
+      cases s with
+      | nil => simp at hh
+      | cons c r => simp at hh; simp [sepPred, hh]
+    · exact absurd rfl h
+  | hyphen =>
+    simp only [sepMatch] at h ⊢
+    split at h
+    · rename_i hh
+      cases s with
+      | nil => simp at hh
+      | cons c r => simp at hh; simp [sepPred, hh]
+    · exact absurd rfl h
+  | and =>
+    simp only [sepMatch] at h ⊢
+    split at h
+    · rename_i hh
+      rw [if_pos hh]
+      unfold isAndAt at hh
+      split at hh
+      · simpa [sepPred, isAndSep] using hh
+      · cases hh
+    · exact absurd rfl h
+
+theorem reSplitAux_spec (sep : Sep) : ∀ (fuel : Nat) (prev : Option Char) (cur s : Str), s.length < fuel →
+    SplitsTo (sepPred sep) (cur ++ s) (reSplitAux sep fuel prev cur s) := by
+  intro fuel
+  induction fuel with
+  | zero => intro _ _ s h; omega
+  | succ fuel ih =>
+    intro prev cur s hlen
+    cases s with
+    | nil => simp only [reSplitAux, List.append_nil]; exact SplitsTo.one cur
+    | cons c r =>
+      simp only [reSplitAux]
+      split
+      · have := ih (some c) (cur ++ [c]) r (by simpa using hlen)
+        simpa using this
+      · rename_i hn
+        have hle := sepMatch_le sep prev (c :: r)
+        have hlen' : ((c :: r).drop (sepMatch sep prev (c :: r))).length < fuel := by
+          simp only [List.length_drop, List.length_cons] at hlen hle ⊢; omega
+        have h1 := ih ((c :: r)[sepMatch sep prev (c :: r) - 1]?) [] _ hlen'
+        have h2 := SplitsTo.cons cur _ _ _ (sepMatch_valid sep prev (c :: r) hn) h1
+        simpa [List.take_append_drop] using h2
+
+theorem reSplit_spec (sep : Sep) (s : Str) : SplitsTo (sepPred sep) s (reSplit sep s) := by
+  have := reSplitAux_spec sep (s.length + 1) none [] s (by omega)
+  simpa [reSplit] using this
+
+/-- the fuel of `reSplit` (length + 1) is never exhausted: any larger fuel gives the same result -/
+theorem reSplitAux_fuel (sep : Sep) : ∀ (f1 f2 : Nat) (prev : Option Char) (cur s : Str),
+    s.length < f1 → s.length < f2 → reSplitAux sep f1 prev cur s = reSplitAux sep f2 prev cur s := by
+  intro f1
+  induction f1 with
+  | zero => intro _ _ _ s h; omega
+  | succ f1 ih =>
+    intro f2 prev cur s h1 h2
+    cases f2 with
+    | zero => omega
+    | succ f2 =>
+      cases s with
+      | nil => simp [reSplitAux]
+      | cons c r =>
+        simp only [reSplitAux]
+        split
+        · exact ih f2 _ _ _ (by simpa using h1) (by simpa using h2)
+        · rename_i hn
+          have hle := sepMatch_le sep prev (c :: r)
+          congr 1
+          apply ih <;> simp only [List.length_drop, List.length_cons] at h1 h2 hle ⊢ <;> omega
+
+/-! ### `SplitsTo` -/
+
+theorem Spec.SplitsTo.ne_nil {isSep : Str → Bool} {s : Str} {L : List Str} (h : SplitsTo isSep s L) : L ≠ [] := by
+  cases h <;> simp
+
+theorem Spec.SplitsTo.prepend {isSep : Str → Bool} {s p : Str} {ps : List Str} (x : Str)
+    (h : SplitsTo isSep s (p :: ps)) : SplitsTo isSep (x ++ s) ((x ++ p) :: ps) := by
+  cases h with
+  | one => exact SplitsTo.one _
+  | cons _ m rest _ hm hr =>
+    have := SplitsTo.cons (x ++ p) m rest ps hm hr
+    simpa using this
+
+theorem Spec.SplitsTo.cons_inv {isSep : Str → Bool} {x p : Str} {ps : List Str}
+    (h : SplitsTo isSep x (p :: ps)) (hne : ps ≠ []) :
+    ∃ m rest, x = p ++ m ++ rest ∧ isSep m = true ∧ SplitsTo isSep rest ps := by
+  cases h with
+  | one => exact absurd rfl hne
+  | cons _ m rest _ hm hr => exact ⟨m, rest, rfl, hm, hr⟩
+
+/-- the last part of a split glued to the first part of the next one -/
+theorem Spec.SplitsTo.merge {isSep : Str → Bool} {y b : Str} {B : List Str} (hy : SplitsTo isSep y (b :: B)) :
+    ∀ {A : List Str} {x a : Str}, SplitsTo isSep x (A ++ [a]) →
+      SplitsTo isSep (x ++ y) (A ++ (a ++ b) :: B) := by
+  intro A
+  induction A with
+  | nil =>
+    intro x a hx
+    cases hx with
+    | one => exact hy.prepend _
+    | cons _ m rest ps hm hr => exact absurd rfl hr.ne_nil
+  | cons p A ih =>
+    intro x a hx
+    obtain ⟨m, rest, rfl, hm, hr⟩ := hx.cons_inv (by simp)
+    have := SplitsTo.cons p m _ _ hm (ih hr)
+    simpa using this
+
+theorem Spec.SplitsTo.mem_of_mem {isSep : Str → Bool} {s : Str} {L : List Str} (h : SplitsTo isSep s L) :
+    ∀ p ∈ L, ∀ c ∈ p, c ∈ s := by
+  induction h with
+  | one p => intro q hq c hc; simp at hq; subst hq; exact hc
+  | cons p m rest ps hm hr ih =>
+    intro q hq c hc
+    rcases List.mem_cons.1 hq with rfl | hq
+    · simp [hc]
+    · have := ih q hq c hc
+      simp [this]
+
+/-! ### `_find_closing_brace` -/
+
+theorem fcbAux_concat (level : Nat) (acc pending s : Str) :
+    (fcbAux level acc pending s).1 ++ (fcbAux level acc pending s).2 = acc ++ pending ++ s := by
+  fun_induction fcbAux level acc pending s with
+  | case1 level pending => simp
+  | case2 level acc pending h => simp
+  | case3 level acc pending r ih => rw [ih]; simp
+  | case4 level acc pending r hc hl => simp
+  | case5 level acc pending r hc hl ih => rw [ih]; simp
+  | case6 level acc pending c r hc hc' ih => rw [ih]; simp
+
+theorem findClosingBrace_length (s : Str) : (findClosingBrace s).2.length ≤ s.length := by
+  have := congrArg List.length (fcbAux_concat 1 [] [] s)
+  simp only [List.length_append, List.nil_append] at this
+  simp only [findClosingBrace]; omega
+
+/-- on a string whose first unmatched closing brace is found, the result is the text up to and
+including that brace, and the rest -/
+theorem fcbAux_matching (body tail : Str) : ∀ (j : Nat) (acc pending : Str), depthAfter j body = some 0 →
+    fcbAux (j + 1) acc pending (body ++ '}' :: tail) = (acc ++ pending ++ body ++ ['}'], tail) := by
+  induction body with
+  | nil =>
+    intro j acc pending h
+    simp only [depthAfter, Option.some.injEq] at h
+    subst h
+    simp [fcbAux]
+  | cons c r ih =>
+    intro j acc pending h
+    simp only [depthAfter] at h
+    simp only [List.cons_append, fcbAux]
+    by_cases hc : c = '{'
+    · simp only [if_pos hc] at h ⊢
+      rw [ih _ _ _ h]; simp [hc]
+    · simp only [if_neg hc] at h ⊢
+      by_cases hc' : c = '}'
+      · simp only [if_pos hc'] at h ⊢
+        by_cases hj : j = 0
+        · simp [hj] at h
+        · simp only [if_neg hj] at h
+          rw [if_neg (by omega)]
+          have e1 : j + 1 - 1 = (j - 1) + 1 := by omega
+          rw [e1, ih _ _ _ h]; simp [hc']
+      · simp only [if_neg hc'] at h ⊢
+        rw [ih _ _ _ h]; simp
+
+theorem findClosingBrace_matching (body tail : Str) (h : depthAfter 0 body = some 0) :
+    findClosingBrace (body ++ '}' :: tail) = (body ++ ['}'], tail) := by
+  simpa [findClosingBrace] using fcbAux_matching body tail 0 [] [] h
+
+/-! ### decomposition of a balanced string -/
+
+theorem depthAfter_plain (s : Str) (hs : ∀ c ∈ s, c ≠ '{' ∧ c ≠ '}') (d : Nat) : depthAfter d s = some d := by
+  induction s with
+  | nil => rfl
+  | cons c r ih =>
+    have hc := hs c (by simp)
+    simp only [depthAfter, if_neg hc.1, if_neg hc.2]
+    exact ih (fun x hx => hs x (List.mem_cons_of_mem _ hx))
+
+theorem balanced_head (s : Str) (e : Nat) (h : depthAfter 0 s = some e) :
+    (∀ c ∈ s.takeWhile (· ≠ '{'), c ≠ '{' ∧ c ≠ '}') ∧
+    depthAfter 0 (s.dropWhile (· ≠ '{')) = some e := by
+  induction s with
+  | nil => simpa using h
+  | cons c r ih =>
+    by_cases hc : c = '{'
+    · subst hc; simpa using h
+    · simp only [depthAfter, if_neg hc] at h
+      by_cases hc' : c = '}'
+      · simp [hc'] at h
+      · simp only [if_neg hc'] at h
+        have := ih h
+        simp only [List.takeWhile_cons, List.dropWhile_cons, ne_eq, hc, not_false_eq_true, decide_true, if_true]
+        refine ⟨?_, this.2⟩
+        intro x hx
+        rcases List.mem_cons.1 hx with rfl | hx
+        · exact ⟨hc, hc'⟩
+        · exact this.1 x hx
+
+theorem matching_brace (rest : Str) : ∀ j, depthAfter (j + 1) rest = some 0 →
+    ∃ body tail, rest = body ++ '}' :: tail ∧ depthAfter j body = some 0 ∧ depthAfter 0 tail = some 0 := by
+  induction rest with
+  | nil => intro j h; simp [depthAfter] at h
+  | cons c r ih =>
+    intro j h
+    simp only [depthAfter] at h
+    by_cases hc : c = '{'
+    · simp only [if_pos hc] at h
+      obtain ⟨body, tail, rfl, h1, h2⟩ := ih _ h
+      exact ⟨c :: body, tail, rfl, by simp [depthAfter, hc, h1], h2⟩
+    · simp only [if_neg hc] at h
+      by_cases hc' : c = '}'
+      · simp only [if_pos hc', Nat.add_one_ne_zero, if_false, Nat.add_sub_cancel] at h
+        cases j with
+        | zero => exact ⟨[], r, by simp [hc'], rfl, h⟩
+        | succ j =>
+          obtain ⟨body, tail, rfl, h1, h2⟩ := ih _ h
+          exact ⟨c :: body, tail, rfl, by simp [depthAfter, hc', h1], h2⟩
+      · simp only [if_neg hc'] at h
+        obtain ⟨body, tail, rfl, h1, h2⟩ := ih _ h
+        exact ⟨c :: body, tail, rfl, by simp [depthAfter, hc, hc', h1], h2⟩
+
+theorem balanced_append {a b : Str} (ha : balanced a = true) (hb : balanced b = true) :
+    balanced (a ++ b) = true := by
+  simp only [balanced, decide_eq_true_eq] at *
+  rw [depthAfter_append, ha]; exact hb
+
+theorem depthAfter_shift (s : Str) : ∀ d e k, depthAfter d s = some e → depthAfter (d + k) s = some (e + k) := by
+  induction s with
+  | nil => intro d e k h; simp only [depthAfter, Option.some.injEq] at h ⊢; omega
+  | cons c r ih =>
+    intro d e k h
+    simp only [depthAfter] at h ⊢
+    split
+    · rename_i hc; rw [if_pos hc] at h
+      have := ih _ _ k h
+      have e1 : d + 1 + k = d + k + 1 := by omega
+      rwa [e1] at this
+    · rename_i hc; rw [if_neg hc] at h
+      split
+      · rename_i hc'; rw [if_pos hc'] at h
+        split at h
+        · cases h
+        · rename_i hd
+          rw [if_neg (by omega)]
+          have := ih _ _ k h
+          have e1 : d - 1 + k = d + k - 1 := by omega
+          rwa [e1] at this
+      · rename_i hc'; rw [if_neg hc'] at h; exact ih _ _ k h
+
+theorem balanced_group {body : Str} (h : depthAfter 0 body = some 0) :
+    balanced ('{' :: body ++ ['}']) = true := by
+  have h1 := depthAfter_shift body 0 0 1 h
+  simp only [Nat.zero_add] at h1
+  simp [balanced, depthAfter, depthAfter_append, h1]
+
+/-! ### the main loop of `split_tex_string` -/
+
+/-- `''.join(word_parts)` -/
+def preOf : Option Str → Str
+  | none => []
+  | some w => w
+
+/-- the part of one iteration that handles the text before the next opening brace -/
+def headStep (sep : Sep) (head : Str) (result : List Str) (wp : Option Str) : List Str × Option Str :=
+  if head ≠ [] then
+    match reSplit sep head with
+    | [] => (result, wp)
+    | [p] => (result, some (preOf wp ++ p))
+    | p :: ps => (result ++ [preOf wp ++ p] ++ ps.dropLast, ps.getLast?)
+  else (result, wp)
+
+@[simp] theorem preOf_some (w : Str) : preOf (some w) = w := rfl
+@[simp] theorem preOf_none : preOf none = [] := rfl
+
+def finish (result : List Str) (wp : Option Str) : List Str :=
+  match wp with
+  | none => result
+  | some w => result ++ [w]
+
+theorem splitLoop_zero (sep : Sep) (s : Str) (result : List Str) (wp : Option Str) :
+    splitLoop sep 0 s result wp = finish result wp := by
+  cases wp <;> rfl
+
+theorem splitLoop_succ (sep : Sep) (fuel : Nat) (s : Str) (result : List Str) (wp : Option Str) :
+    splitLoop sep (fuel + 1) s result wp =
+      match s.dropWhile (· ≠ '{') with
+      | [] => finish (headStep sep (s.takeWhile (· ≠ '{')) result wp).1
+                (headStep sep (s.takeWhile (· ≠ '{')) result wp).2
+      | _ :: rest =>
+        splitLoop sep fuel (findClosingBrace rest).2
+          (headStep sep (s.takeWhile (· ≠ '{')) result wp).1
+          (some (preOf (headStep sep (s.takeWhile (· ≠ '{')) result wp).2 ++ ['{'] ++
+            (findClosingBrace rest).1)) := by
+  rfl
+
+theorem finish_append (r1 r2 : List Str) (wp : Option Str) : finish (r1 ++ r2) wp = r1 ++ finish r2 wp := by
+  cases wp <;> simp [finish]
+
+theorem headStep_acc (sep : Sep) (head : Str) (result : List Str) (wp : Option Str) :
+    headStep sep head result wp =
+      (result ++ (headStep sep head [] wp).1, (headStep sep head [] wp).2) := by
+  unfold headStep
+  split
+  · split <;> simp
+  · simp
+
+theorem splitLoop_acc (sep : Sep) : ∀ (fuel : Nat) (s : Str) (result : List Str) (wp : Option Str),
+    splitLoop sep fuel s result wp = result ++ splitLoop sep fuel s [] wp := by
+  intro fuel
+  induction fuel with
+  | zero => intro s result wp; simp only [splitLoop_zero]; cases wp <;> simp [finish]
+  | succ fuel ih =>
+    intro s result wp
+    rw [splitLoop_succ, splitLoop_succ, headStep_acc]
+    split
+    · simp only [finish_append]
+    · simp only []
+      rw [ih, ih _ (headStep sep _ [] wp).1]
+      simp
+
+/-- what `headStep` does in terms of the split of the head -/
+theorem headStep_spec (sep : Sep) (head : Str) (wp : Option Str) :
+    ∃ (A : List Str) (a : Str), SplitsTo (sepPred sep) head (A ++ [a]) ∧
+      ((A = [] ∧ (headStep sep head [] wp).1 = [] ∧ preOf (headStep sep head [] wp).2 = preOf wp ++ a ∧
+          ((headStep sep head [] wp).2 = none → wp = none ∧ head = [])) ∨
+       (∃ p A', A = p :: A' ∧ (headStep sep head [] wp).1 = (preOf wp ++ p) :: A' ∧
+          (headStep sep head [] wp).2 = some a)) := by
+  by_cases hh : head = []
+  · subst hh
+    refine ⟨[], [], SplitsTo.one [], Or.inl ⟨rfl, ?_, ?_, ?_⟩⟩ <;> simp [headStep]
+  · have hsp := reSplit_spec sep head
+    unfold headStep
+    rw [if_pos hh]
+    cases hr : reSplit sep head with
+    | nil => rw [hr] at hsp; exact absurd rfl hsp.ne_nil
+    | cons p ps =>
+      rw [hr] at hsp
+      cases ps with
+      | nil =>
+        exact ⟨[], p, hsp, Or.inl ⟨rfl, rfl, rfl, by simp⟩⟩
+      | cons q qs =>
+        have hne : q :: qs ≠ [] := by simp
+        refine ⟨p :: (q :: qs).dropLast, (q :: qs).getLast hne, ?_, Or.inr ⟨p, (q :: qs).dropLast, rfl, ?_, ?_⟩⟩
+        · rw [List.cons_append, List.dropLast_concat_getLast hne]; exact hsp
+        · simp
+        · simp only []
+          exact List.getLast?_eq_some_getLast hne
+
+/-- the fuel of `splitLoop` (length + 1) is never exhausted: any larger fuel gives the same result -/
+theorem splitLoop_fuel (sep : Sep) : ∀ (f1 f2 : Nat) (s : Str) (result : List Str) (wp : Option Str),
+    s.length < f1 → s.length < f2 → splitLoop sep f1 s result wp = splitLoop sep f2 s result wp := by
+  intro f1
+  induction f1 with
+  | zero => intro _ s _ _ h; omega
+  | succ f1 ih =>
+    intro f2 s result wp h1 h2
+    cases f2 with
+    | zero => omega
+    | succ f2 =>
+      rw [splitLoop_succ, splitLoop_succ]
+      have hs : s.length = (s.takeWhile (· ≠ '{')).length + (s.dropWhile (· ≠ '{')).length := by
+        have := congrArg List.length (List.takeWhile_append_dropWhile (p := (· ≠ '{')) (l := s))
+        simp only [List.length_append] at this; omega
+      split
+      · rfl
+      · rename_i c rest hd
+        rw [hd] at hs
+        have := findClosingBrace_length rest
+        simp only [List.length_cons] at hs
+        apply ih <;> omega
+
+theorem balanced_of_plain {s : Str} (hs : ∀ c ∈ s, c ≠ '{' ∧ c ≠ '}') : balanced s = true := by
+  simp [balanced, depthAfter_plain s hs 0]
+
+theorem Spec.SplitsTo.singleton_inv {isSep : Str → Bool} {x a : Str} (h : SplitsTo isSep x [a]) : x = a := by
+  cases h with
+  | one => rfl
+  | cons _ m rest ps hm hr => exact absurd rfl hr.ne_nil
+
+/-- the loop on balanced input: the pieces are a split of the text (with the pending word glued
+to the first piece) and every piece is balanced -/
+theorem splitLoop_main (sep : Sep) : ∀ (fuel : Nat) (s : Str) (wp : Option Str), s.length < fuel →
+    depthAfter 0 s = some 0 → (s ≠ [] ∨ wp ≠ none) →
+    ∃ p ps, splitLoop sep fuel s [] wp = (preOf wp ++ p) :: ps ∧
+      SplitsTo (sepPred sep) s (p :: ps) ∧ ∀ q ∈ p :: ps, balanced q = true := by
+  intro fuel
+  induction fuel with
+  | zero => intro s _ h; omega
+  | succ fuel ih =>
+    intro s wp hlen hbal hne
+    rw [splitLoop_succ]
+    have hs : s = s.takeWhile (· ≠ '{') ++ s.dropWhile (· ≠ '{') := List.takeWhile_append_dropWhile.symm
+    obtain ⟨hplain, hafter⟩ := balanced_head s 0 hbal
+    obtain ⟨A, a, hA, hcase⟩ := headStep_spec sep (s.takeWhile (· ≠ '{')) wp
+    have hAbal : ∀ q ∈ A ++ [a], balanced q = true := fun q hq =>
+      balanced_of_plain (fun c hc => hplain c (hA.mem_of_mem q hq c hc))
+    generalize hhead : s.takeWhile (· ≠ '{') = head at *
+    generalize hst : headStep sep head [] wp = st at *
+    cases hd : s.dropWhile (· ≠ '{') with
+    | nil =>
+      rw [hd, List.append_nil] at hs
+      simp only []
+      rcases hcase with ⟨rfl, h1, h2, h3⟩ | ⟨p, A', rfl, h1, h2⟩
+      · cases hst2 : st.2 with
+        | none =>
+          obtain ⟨hw, hh⟩ := h3 hst2
+          rcases hne with hne | hne
+          · exact absurd (hs.trans hh) hne
+          · exact absurd hw hne
+        | some w =>
+          rw [hst2, preOf_some] at h2
+          refine ⟨a, [], ?_, ?_, hAbal⟩
+          · simp only [finish, h1, h2, List.nil_append]
+          · rw [hs]; exact hA
+      · refine ⟨p, A' ++ [a], ?_, ?_, hAbal⟩
+        · simp only [finish, h1, h2, List.cons_append]
+        · rw [hs]; exact hA
+    | cons c rest =>
+      rw [hd] at hafter hs
+      have hc : c = '{' := by
+        have : (s.dropWhile (· ≠ '{')).head? = some c := by rw [hd]; rfl
+        have := List.head?_dropWhile_not (fun x => decide (x ≠ '{')) s
+        rw [hd] at this
+        simpa using this
+      subst hc
+      have hrest : depthAfter 1 rest = some 0 := by simpa [depthAfter] using hafter
+      obtain ⟨body, tail, rfl, hb1, hb2⟩ := matching_brace rest 0 hrest
+      simp only []
+      rw [findClosingBrace_matching body tail hb1]
+      have htl : tail.length < fuel := by
+        have := congrArg List.length hs
+        simp only [List.length_append, List.length_cons] at this
+        omega
+      obtain ⟨p2, ps2, h5, h6, h7⟩ := ih tail (some (preOf st.2 ++ ['{'] ++ (body ++ ['}']))) htl hb2
+        (Or.inr (by simp))
+      rw [splitLoop_acc, h5]
+      have hg := balanced_group hb1
+      have hy : SplitsTo (sepPred sep) (('{' :: body ++ ['}']) ++ tail) ((('{' :: body ++ ['}']) ++ p2) :: ps2) :=
+        h6.prepend _
+      have hm := hy.merge hA
+      have hs' : s = head ++ (('{' :: body ++ ['}']) ++ tail) := by rw [hs]; simp
+      rw [← hs'] at hm
+      have hbal2 : balanced (a ++ (('{' :: body ++ ['}']) ++ p2)) = true :=
+        balanced_append (hAbal a (by simp)) (balanced_append hg (h7 p2 (by simp)))
+      rcases hcase with ⟨rfl, h1, h2, h3⟩ | ⟨p, A', rfl, h1, h2⟩
+      · refine ⟨a ++ (('{' :: body ++ ['}']) ++ p2), ps2, ?_, by simpa using hm, ?_⟩
+        · simp only [preOf_some, h1, h2, List.nil_append, List.append_assoc, List.cons_append]
+        · intro q hq
+          rcases List.mem_cons.1 hq with rfl | hq
+          · exact hbal2
+          · exact h7 q (List.mem_cons_of_mem _ hq)
+      · refine ⟨p, A' ++ (a ++ (('{' :: body ++ ['}']) ++ p2)) :: ps2, ?_, by simpa using hm, ?_⟩
+        · simp only [preOf_some, h1, h2, List.nil_append, List.append_assoc, List.cons_append]
+        · intro q hq
+          simp only [List.mem_cons, List.mem_append] at hq
+          rcases hq with rfl | hq | rfl | hq
+          · exact hAbal _ (by simp)
+          · exact hAbal q (by simp [hq])
+          · exact hbal2
+          · exact h7 q (List.mem_cons_of_mem _ hq)
 end Pybtex
